@@ -16,7 +16,7 @@ CONSTANTS Family, K
 VARIABLES cs, phase
 vars == <<cs, phase>>
 
-Alpha == {"a", "/", "~", "0", "1", "%", " ", "-"}
+Alpha == {"a", "/", "~", "0", "1", "%", " ", "-", "+"}     \* ("+" is an ordinary character of a URI fragment, not a space)
 Tokens == UNION {[1..n -> Alpha] : n \in 0..K}
 IdxTokens == UNION {[1..n -> {"0", "1", "2", "+", "-"}] : n \in 0..3}
 
@@ -56,6 +56,14 @@ TwinCases == {[u |-> Doc1(Stamp(kw, (kw :> ((Join(t) :> T(1)) @@ (Join(Esc(t)) :
                 : kw \in {"defs", "depSchemas", "dependentSchemas", "definitions"}, t \in {x \in Tokens : Esc(x) # x}}
              \cup {[u |-> Doc1([properties |-> (Join(t) :> T(1)) @@ (Join(Esc(t)) :> T(2)) @@ [r |-> [ref |-> LocalRef(FragPtr(<<SegN("properties", Join(t))>>))]]]),
                      kw |-> "properties"] : t \in {x \in Tokens : Esc(x) # x}}
+\* an anchor (2020-12 $anchor / $dynamicAnchor, draft-07 fragment $id) SPELLED like the pointer of another
+\* location: a fragment that begins with "/" is a JSON Pointer, whatever names the document declares
+AnchorLikePointer ==
+  {[u |-> Doc1([defs |-> [a |-> T(1), b |-> T(2) @@ (kw :> "/$defs/a")]] @@ PropR(LocalRef(FragPtr(<<SegN("defs", "a")>>)))), kw |-> "defs"]
+     : kw \in {"anchor", "dynamicAnchor"}}
+  \cup {[u |-> Doc1([defs |-> [a |-> T(2) @@ [anchor |-> "/$defs/b"], b |-> T(1)]] @@ PropR(LocalRef(FragPtr(<<SegN("defs", "b")>>)))), kw |-> "defs"],
+        [u |-> Doc1(Stamp("definitions", [definitions |-> [a |-> T(1), b |-> T(2) @@ [id |-> IdFrag("/definitions/a")]]]
+                                           @@ PropR(LocalRef(FragPtr(<<SegN("definitions", "a")>>))))), kw |-> "definitions"]}
 \* depth 2: a keyword under a keyed / indexed parent
 NestCases ==
   {[u |-> Doc1([defs |-> (k :> [properties |-> (k2 :> T(1)) @@ ("zz" :> T(2)), allOf |-> <<T(3)>>])]
@@ -77,12 +85,15 @@ BadPtrs == {"/allOf/+1", "/allOf/-0", "/allOf/+0", "/allOf/01", "/allOf/00", "/a
             \* a keyword that holds one subschema, absent from the document: nothing is designated
             "/not", "/if", "/then", "/else", "/contains", "/additionalProperties", "/propertyNames", "/unevaluatedItems",
             "/unevaluatedProperties", "/contentSchema", "/additionalItems", "/allOf/0/not", "/$defs/a/if", "/properties/p/items",
-            "/items/not", "/items/items"}
+            "/items/not", "/items/items",
+            \* indexes at and beyond the machine word
+            "/allOf/4294967296", "/allOf/4294967297", "/allOf/9223372036854775807", "/allOf/9223372036854775808", "/allOf/9223372036854775809",
+            "/allOf/18446744073709551615", "/allOf/18446744073709551616", "/allOf/18446744073709551617", "/allOf/99999999999999999999999999"}
 GoodRaw == {<<"/allOf/0", 1>>, <<"/allOf/1", 2>>, <<"/$defs/a", 3>>, <<"/items", 4>>, <<"/properties/p", 5>>, <<"", 0>>}
 BadCases == {[u |-> Doc1(BadDoc @@ [properties |-> [p |-> TN(5), r |-> [ref |-> Ref(EmptyURI, [k |-> "raw", s |-> p])]]]), kw |-> "bad", raw |-> p, want |-> 99] : p \in BadPtrs}
             \cup {[u |-> Doc1(BadDoc @@ [properties |-> [p |-> TN(5), r |-> [ref |-> Ref(EmptyURI, [k |-> "raw", s |-> g[1]])]]]), kw |-> "good", raw |-> g[1], want |-> g[2]] : g \in GoodRaw}
 
-Cases == CASE Family = "P1" -> SingleCases \cup SeqCases \cup MapCases \cup TwinCases \cup NestCases
+Cases == CASE Family = "P1" -> SingleCases \cup SeqCases \cup MapCases \cup TwinCases \cup AnchorLikePointer \cup NestCases
            [] Family = "P2" -> BadCases
 
 Init == cs \in Cases /\ phase = "new"
